@@ -79,19 +79,15 @@ structure Cfg where
   `CondJmp2A`, `CondJmp2B`, `CallReg` -/
   raisable : Nat → Bool
 
-/-! ## equality of decoded arguments (`ast::Expr: PartialEq`, derived) -/
+/-! ## equality of decoded arguments (`same_value` in `diff_switchify_parts`) -/
 
-def absBits (v : Int32) : BitVec 32 := v.toBitVec &&& 0x7FFFFFFF#32
-def isNaN32 (v : Int32) : Bool := decide (0x7F800000#32 < absBits v)
-def isZero32 (v : Int32) : Bool := absBits v == 0#32
-
-/-- `f32 == f32` on bit patterns: NaN equals nothing, `0.0 == -0.0`, otherwise the bits decide -/
-def f32Eq (a b : Int32) : Bool :=
-  !isNaN32 a && !isNaN32 b && (a == b || (isZero32 a && isZero32 b))
-
-/-- `LitInt { value, format } == LitInt { .. }` (the format comes from the ABI) / `LitFloat { value } == ..` -/
+/-- `same_value`: `(LitFloat a, LitFloat b) => a.to_bits() == b.to_bits()`, everything else (`LitInt { value,
+format }`, the format comes from the ABI) by the derived `==`.  On bit patterns both arms are equality of
+the dword: `0.0` and `-0.0` are different values, a NaN equals itself.  (Before commit b717bca the float arm
+was `f32 ==`, which took a column `0.0 / -0.0` for constant: former finding
+`diff-switch-fold-merges-signed-float-zeros`.) -/
 def valEq (cfg : Cfg) (op pos : Nat) (a b : Int32) : Bool :=
-  if cfg.isFloat op pos then f32Eq a b else a == b
+  if cfg.isFloat op pos then a.toBitVec == b.toBitVec else a == b
 
 /-! ## the gathering loop of `recognize_diff_switch` -/
 
@@ -235,14 +231,16 @@ def canRaise (cfg : Cfg) (k : Kind) (op : Nat) : Bool := k == .ins || cfg.raisab
 
 /-- `raise_middle_to_ast` for one item.  An intrinsic without statement syntax falls back to its
 `fallback_expansion`: the `ins_` form of the instruction itself, or - for a folded statement - the
-gathered instructions.  The statements of a fallback are built by the closure of the *outer*
-instruction (`self.make_stmt(instr.difficulty_mask, ..)` in `raise_middle_to_ast`): they all carry the
-outer difficulty mask, and offset labels are emitted once, before the first. -/
+gathered instructions.  Every statement of a fallback carries the difficulty mask of the instruction
+it is printed for (`cur_difficulty_mask`, set at the start of `_raise_instr`; before commit b717bca it
+was the mask of the outer instruction: former finding
+`diff-switch-fold-of-unraisable-intrinsic-loses-difficulty`); offset labels are emitted once, for the
+outer instruction, before the first. -/
 def render (cfg : Cfg) : Item → List RStmt
   | .plain i => if canRaise cfg i.kind i.opcode then [plainStmt i] else [{ plainStmt i with kind := .ins }]
   | .folded s rungs =>
     if canRaise cfg s.kind s.opcode then [s]
-    else match rungs.map fun r => { plainStmt r with kind := .ins, mask := s.mask, label := false } with
+    else match rungs.map fun r => { plainStmt r with kind := .ins, label := false } with
       | [] => []
       | st :: sts => { st with label := s.label } :: sts
 
